@@ -295,6 +295,108 @@ def w_small(payload, rep):
             strict_compare(texts, rep, 'small')
 
 
+def soft_programs():
+    """One-equation programs in which a soft keyword / builtin name is an ordinary series: bare, with [0], lagged,
+    on either side, as parameter and as error."""
+    T, E, P_ = gs.Term, gs.Equation, gs.Program
+    for n in ts.SOFT_NAMES:
+        for ix in (None, 0, -1, 2):
+            yield P_([E(T('var', 'Y_', None), gs.Bin('+', T('var', n, ix), gs.Num('1')))])
+            yield P_([E(T('var', n, None if ix is None else 0), gs.Bin('*', T('var', 'X_', ix), T('var', n, -1)))])
+        yield P_([E(T('var', 'Y_', None), gs.Bin('+', T('param', n, None), T('var', 'X_', None)))])
+        yield P_([E(T('var', 'Y_', None), gs.Bin('-', T('error', n, None), T('var', 'X_', -1)))])
+
+
+def w_soft(payload, rep):
+    tag, index, stride, oracle_only, step = payload
+    for k, prog in enumerate(soft_programs()):
+        if k % stride != index or (k // stride) % step != zlib.crc32(tag.encode()) % step:
+            continue
+        rng = random.Random(f'{tag}:{k}')
+        texts = oracle_program(prog, rng, rep, 1, 'soft')
+        if not oracle_only and texts:
+            strict_compare(texts, rep, 'soft')
+
+
+# ---- order of parses: the result of a parse must not depend on what the process parsed before ---------------------
+
+ROLE_NAMES = ['exp', 'log', 'f', 'g_1', 'np.sqrt', 'X', 'abs', 'type', 'k']
+
+
+def role_scripts(name):
+    """The same identifier in every role it can play (function, variable bare / [0] / lagged / named period,
+    parameter, error, left-hand side), one small script per role."""
+    base = name.split('.')[-1]
+    out = {'called': f'Y_ = {name}(Z_)', 'called-space': f'Y_ = {name} (Z_) + 1'}
+    if '.' not in name:
+        out.update({
+            'variable': f'Y_ = {name} + Z_', 'variable[0]': f'Y_ = {name}[0] + Z_', 'lagged': f'Y_ = {name}[-2] * 2',
+            'lead': f'Y_ = {name}[+1]', 'spaced-index': f'Y_ = {name}[ -1 ]', 'period': f"Y_ = {name}['a']",
+            'parameter': f'Y_ = {{{name}}} * Z_', 'parameter-spaced': f'Y_ = {{ {name} }}[-1]',
+            'error': f'Y_ = Z_ + <{name}>', 'lhs': f'{name} = Z_[-1]', 'lhs[0]': f'{name}[0] = Z_',
+        })
+    else:
+        out.update({'variable': f'Y_ = {base} + Z_', 'lagged': f'Y_ = {base}[-1]'})
+    return out
+
+
+def fresh_views(scripts):
+    """Each script parsed ALONE in a fresh interpreter (one subprocess for the whole list): the reference."""
+    import json, subprocess, sys
+    code = ('import json, sys\nimport fsic\nout = []\n'
+            'for s in json.load(sys.stdin):\n'
+            '    try:\n'
+            '        import importlib, fsic.parser as P\n'
+            '        P = importlib.reload(P)\n'
+            '        out.append([[x.name, x.type.name, str(x.lags), str(x.leads), x.equation, x.code] for x in P.parse_model(s)])\n'
+            '    except Exception as e:\n'
+            '        out.append("raises " + type(e).__name__)\n'
+            'json.dump(out, sys.stdout)\n')
+    p = subprocess.run([sys.executable, '-c', code], input=json.dumps(scripts), capture_output=True, text=True,
+                       timeout=600)
+    if p.returncode != 0:
+        raise RuntimeError('fresh interpreter failed: ' + p.stderr[-500:])
+    return json.loads(p.stdout)
+
+
+def here_view(script):
+    try:
+        return [[x.name, x.type.name, str(x.lags), str(x.leads), x.equation, x.code] for x in P.parse_model(script)]
+    except Exception as e:  # noqa: BLE001
+        return 'raises ' + type(e).__name__
+
+
+def w_order(payload, rep):
+    """parse A then B  ==  parse B then A  ==  B alone in a fresh interpreter, for every ordered pair of roles."""
+    names, seed_tag = payload
+    for name in names:
+        roles = role_scripts(name)
+        keys = list(roles)
+        ref = dict(zip(keys, fresh_views([roles[k] for k in keys])))
+        rng = random.Random(f'{seed_tag}:{name}')
+        orders = [keys, keys[::-1]] + [rng.sample(keys, len(keys)) for _ in range(3)]
+        for order in orders:
+            for pos, k in enumerate(order):
+                got = here_view(roles[k])
+                rep.case(('order', name, tuple(order[:pos + 1])), nontrivial=pos > 0)
+                if got != ref[k]:
+                    rep.violate('parse-depends-on-history',
+                                f'{roles[k]!r} parsed after {[roles[j] for j in order[:pos]][-3:]} gives {got} but alone '
+                                f'in a fresh interpreter {ref[k]}',
+                                {'check': 'order', 'stream': 'order', 'text': roles[k], 'history': [roles[j] for j in order[:pos]]})
+                    break
+        # and through parse_equation / parse_terms directly (the helpers share whatever state parse_model uses)
+        for k in keys:
+            try:
+                P.parse_equation(roles[k])
+            except Exception:  # noqa: BLE001
+                pass
+            got = here_view(roles[k])
+            if got != ref[k]:
+                rep.violate('parse-depends-on-history', f'{roles[k]!r} after parse_equation calls gives {got}, fresh {ref[k]}',
+                            {'check': 'order', 'stream': 'order', 'text': roles[k], 'history': [roles[j] for j in keys]})
+
+
 def w_fixed(payload, rep):
     oracle_only = payload
     for key, plain, text in FIXED_FINDINGS:
@@ -327,7 +429,7 @@ def strict_compare(texts, rep, stream):
             rep.dist['scan_render:statement-outside-token-grammar'] += 1
 
 
-for _n, _f in (('programs', w_programs), ('small', w_small), ('fixed', w_fixed)):
+for _n, _f in (('programs', w_programs), ('small', w_small), ('fixed', w_fixed), ('soft', w_soft), ('order', w_order)):
     ts.register('c14:' + _n, _f)
 
 
@@ -343,6 +445,10 @@ def run(ctx, rep):
     for index in range(stride):
         tasks.append(('c14:small', (f'{ctx.seed}:c14s', index, stride, oo)))
     tasks.append(('c14:fixed', oo))
+    for index in range(16):
+        tasks.append(('c14:soft', (f'{ctx.seed}:c14soft', index, 16, oo, 3 if quick else 1)))
+    for n in ROLE_NAMES:
+        tasks.append(('c14:order', ([n], f'{ctx.seed}:order')))
     ts.run_pool(ctx, rep, tasks)
     rep.notes.append(f'{n_prog} programs + small-statement tier, each x {len(gs.LAYOUT_CATALOGUE)} catalogue layouts + '
                      f'{3 if quick else 6} random compositions, merge, permutation, normal-form re-parse')
@@ -394,6 +500,14 @@ def replay(ctx, rep, case):
             syms, tag = parse(t)
             print('   ->', tag, None if syms is None else full_view(syms))
         check_layout(case['key'], case['plain'], case['text'], rep, 'replay', layout=case.get('layout'))
+    elif kind == 'order':
+        ref = fresh_views([case['text']])[0]
+        for h in case.get('history', []):
+            here_view(h)
+        got = here_view(case['text'])
+        print('   after history:', got, '\n   fresh        :', ref)
+        if got != ref:
+            rep.violate('parse-depends-on-history', 'result depends on earlier parses', case)
     elif kind == 'merge':
         check_merge(case['stmts'], rep, 'replay')
     elif kind == 'perm':
